@@ -45,6 +45,7 @@ type Prefill struct {
 	Holes     []uint32 `json:"holes,omitempty"`     // offsets freed inside a KeepFull block
 	BulkCol   string   `json:"bulk_col,omitempty"`  // string column that gets BulkLen pseudo-random bytes in every row of the KeepFull blocks (state > 1 MiB)
 	BulkLen   int      `json:"bulk_len,omitempty"`
+	Far       []int    `json:"far,omitempty"` // additional far-out blocks filled and emptied except for the survivors
 }
 
 // Step is one step of a single-client history.
